@@ -199,8 +199,18 @@ def marker(prog):
     for n in me.nodes.values():
         if n['k'] == 'ArraySubscriptExpr' and show(kids(n)[0]) == 'params_ptr':
             e = strip(kids(n)[1], casts=True)
-            if e['k'] == 'BinaryOperator' and e.get('op') == '-' and 'define' in show(kids(e)[0]):
-                base_r = const(kids(e)[1])
+            if e['k'] == 'BinaryOperator' and e.get('op') == '-' and const(kids(e)[1]) is not None:
+                m = strip(kids(e)[0], casts=True)
+                src = show(m)
+                if m['k'] == 'DeclRefExpr' and m.get('dk') in ('local', 'var', None):
+                    # a local copy `const int index = (uint8_t)*define;`
+                    for d in me.nodes.values():
+                        if d['k'] == 'DeclStmt':
+                            for dd, i in zip([x for x in d.get('decls', ()) if x.get('init')], kids(d)):
+                                if dd.get('d') == m.get('d') or dd.get('n') == m.get('n'):
+                                    src = show(i)
+                if 'define' in src:
+                    base_r = const(kids(e)[1])
     if None in (wk, rk_e, rk_d, base_w, base_r):
         raise AnalysisBroken('T-SIB(f): marker sites not recognised (%s %s %s %s %s)' % (wk, rk_e, rk_d, base_w, base_r))
     obs = []
@@ -297,3 +307,132 @@ def repeat(prog):
     obs.append(Ob('REPEAT', fn.file, inner['l'], fn.q, 'copy-loop', VIOLATED if problems else DISCHARGED, '; '.join(problems),
                   'copies [start, end) count-1 times from the image'))
     return RuleResult('REPEAT', obs, 1, {})
+
+
+def _assigned_vars(fn, bid):
+    """Declaration ids stored to (=, op=, ++/--) by the elements of block bid, with the node."""
+    out = []
+    for e in fn.blocks[bid]['e']:
+        n = fn.nodes.get(e)
+        if n is None:
+            continue
+        tgt = None
+        if n['k'] in ('BinaryOperator', 'CompoundAssignOperator') and (n.get('op') == '=' or n.get('op', '').endswith('=') and n.get('op') not in ('==', '!=', '<=', '>=')):
+            tgt = strip(kids(n)[0])
+        elif n['k'] == 'UnaryOperator' and n.get('op') in ('++', '--'):
+            tgt = strip(kids(n)[0])
+        if tgt is not None and tgt['k'] == 'DeclRefExpr':
+            out.append((tgt.get('d'), n))
+    return out
+
+
+def find_exhaustive(prog, scope=None, floor=4):
+    """FIND-EXHAUSTIVE: a lookup loop (a loop that tests `strcmp(...) == 0` on the entries it walks) is left early only
+    through the match: every edge out of the loop comes either from a test that mentions only the loop's cursors
+    (variables advanced on every iteration) and loop-invariant values, or from a block dominated by the match."""
+    from nk.cfg import dominators
+    scope = scope or (lambda f: f.file in ('core/Symbols.cpp', 'core/Macros.cpp', 'core/Linker.cpp', 'core/imports_ar.cpp',
+                                           'core/imports_obj.cpp', 'core/imports_get_int.cpp'))
+    obs = []
+    for fn in prog.functions(scope):
+        if not fn.blocks:
+            continue
+        # match blocks: cond contains strcmp(...) == 0 as its own (rightmost) test
+        matches = {}
+        for bid, b in fn.blocks.items():
+            c = fn.nodes.get(b.get('cond')) if 'cond' in b else None
+            if c is None:
+                continue
+            cs = strip(c)
+            while cs['k'] == 'BinaryOperator' and cs.get('op') in ('&&', '||'):
+                cs = strip(kids(cs)[1])
+            if cs['k'] == 'BinaryOperator' and cs.get('op') == '==' and const(kids(cs)[1]) == 0:
+                l = strip(kids(cs)[0], casts=True)
+                if l['k'] == 'CallExpr' and callee(l) in ('strcmp', 'strcasecmp') and len(b['s']) == 2 and b['s'][0] is not None:
+                    matches[bid] = b['s'][0]
+        if not matches:
+            continue
+        dom = dominators(fn)
+        preds = fn.preds()
+        loops = natural_loops(fn)
+        k = 0
+        for h, body in sorted(loops.items()):
+            ms = {m: t for m, t in matches.items() if m in body}
+            if not ms:
+                continue
+            k += 1
+            latches = [t for t in body if h in fn.succs(t)]
+            assigned = {}
+            for bid in body:
+                for d, n in _assigned_vars(fn, bid):
+                    assigned.setdefault(d, []).append((bid, n))
+
+            def after_match(bid):
+                for m, t in ms.items():
+                    if t in dom[bid] and (set(preds[t]) <= {m}):
+                        return True
+                return False
+            cursors = {d for d, sites in assigned.items() if any(all(bid in dom[l] for l in latches) for bid, _ in sites)}
+            problems = []
+            for bid in sorted(body):
+                outs = [s for s in fn.succs(bid) if s not in body]
+                if not outs or after_match(bid):
+                    continue
+                b = fn.blocks[bid]
+                c = fn.nodes.get(b.get('cond')) if 'cond' in b else None
+                if c is None:
+                    problems.append((bid, None, 'line %s: leaves the loop unconditionally before the remaining entries are compared' % _line_of(fn, bid)))
+                    continue
+                cs = strip(c)
+                while cs['k'] == 'BinaryOperator' and cs.get('op') in ('&&', '||'):
+                    cs = strip(kids(cs)[1])
+                if bid in ms:
+                    continue       # the false edge of the match itself cannot leave the loop ... unless it is the loop test
+                bad = []
+                for x in walk(cs):
+                    if x['k'] == 'DeclRefExpr' and x.get('d') in assigned and x.get('d') not in cursors:
+                        sites = assigned[x['d']]
+                        if not all(after_match(sb) for sb, _ in sites):
+                            bad.append(x['n'])
+                if bid == h or _is_header_part(fn, h, bid, body):
+                    if bad:
+                        problems.append((bid, c, 'line %d: the loop test `%s` depends on `%s`, which is set without a match: the search '
+                                         'can stop before every entry is compared' % (c['l'], show(c)[:50], bad[0])))
+                    continue
+                # an exit from inside the body that is not behind the match
+                problems.append((bid, c, 'line %d: `%s` leaves the lookup loop without a match: later entries are never compared' % (c['l'], show(c)[:50])))
+            hl = _line_of(fn, h)
+            obs.append(Ob('FIND-EXHAUSTIVE', fn.file, hl, fn.q, 'lookup-loop#%d' % k, VIOLATED if problems else DISCHARGED,
+                          '; '.join(p[2] for p in problems[:2]),
+                          'every early exit of the lookup loop at line %s is behind the strcmp match; loop tests use only cursors %s' % (
+                              hl, sorted({n_['n'] for d in cursors for _, s_ in assigned[d] for n_ in [strip(kids(s_)[0])]}))))
+    return RuleResult('FIND-EXHAUSTIVE', obs, floor, {})
+
+
+def _line_of(fn, bid):
+    b = fn.blocks[bid]
+    for e in list(b['e']) + ([b['cond']] if 'cond' in b else []):
+        n = fn.nodes.get(e)
+        if n is not None and 'l' in n:
+            return n['l']
+    return fn.line
+
+
+def _is_header_part(fn, h, bid, body):
+    """bid belongs to the loop test: reachable from the header through condition-only blocks (`a && b` tests)."""
+    seen, st = set(), [h]
+    while st:
+        x = st.pop()
+        if x in seen or x not in body:
+            continue
+        seen.add(x)
+        b = fn.blocks[x]
+        only_cond = all(fn.nodes.get(e) is None or fn.nodes[e]['k'] not in ('CallExpr', 'DeclStmt', 'CompoundAssignOperator') and
+                        not (fn.nodes[e]['k'] == 'BinaryOperator' and fn.nodes[e].get('op') == '=') for e in b['e'])
+        if not ('cond' in b and (only_cond or x == h) and b.get('termk') in ('WhileStmt', 'ForStmt', 'BinaryOperator', 'DoStmt')):
+            continue
+        if x == bid:
+            return True
+        if b.get('termk') == 'BinaryOperator':
+            st.extend(s for s in fn.succs(x))
+    return False
